@@ -1,6 +1,6 @@
 SPECIFICATION Spec
 CONSTANTS
- Res = {"r1", "r2", "r3"}
+ Res = {"r1", "r1b", "r2", "r3"}
  Classes = {"A", "B", "C", "D"}
  Unknown = "Z"
  Handles <- HandlesDef
